@@ -728,3 +728,114 @@ var _ = register(&propSpec{
 })
 
 func TestC16Fault(t *testing.T) { runProp(t, "C16.fault") }
+
+// ---------------------------------------------------------------------------
+// C16.anyerror — whatever goes wrong in an arbitrary (token-mutated) multi-file
+// program: an error that carries a position must name one of the sources and
+// point inside it, and the reported token's text must be found there.
+
+type c16Any struct {
+	Files   map[string]string `json:"files"`
+	Entry   string            `json:"entry"`
+	Muts    []c01Mut          `json:"muts,omitempty"`
+	MutFile string            `json:"mut_file"` // file the mutations are applied to
+	Variant int               `json:"variant"`
+}
+
+func checkC16Any(c any, r *Rec) error {
+	cs := c.(*c16Any)
+	files := copyFiles(cs.Files)
+	if src, ok := files[cs.MutFile]; ok {
+		files[cs.MutFile] = c01ApplyMuts(src, cs.Muts)
+	}
+	set := pongo2.NewSet("c16any", newMemLoader(files))
+	tpl, err := set.FromFile(cs.Entry)
+	phase := "compile"
+	if err == nil {
+		phase = "execute"
+		_, err = tpl.Execute(progContext(cs.Variant, nil))
+	}
+	if err == nil {
+		r.Class("no-error")
+		return nil
+	}
+	e, ok := err.(*pongo2.Error)
+	if !ok {
+		return fmt.Errorf("%s error is %T, not *pongo2.Error: %v", phase, err, err)
+	}
+	named := e.Filename
+	if named == "" && e.Token != nil {
+		named = e.Token.Filename
+	}
+	if phase == "compile" && e.Filename == "" {
+		return fmt.Errorf("compile error does not name a template: %v\n files=%q", e, files)
+	}
+	if e.Line <= 0 {
+		r.Class(phase + ":no-position")
+		return nil
+	}
+	if e.Sender == "fromfile" {
+		// a template that could not be loaded: the error names the missing file (there is no
+		// source to point into) and carries the position of the tag that referred to it
+		r.Class(phase + ":missing-file")
+		return nil
+	}
+	src, known := files[named]
+	if !known {
+		return fmt.Errorf("%s error carries line %d col %d but names %q, which is none of the sources: %v\n files=%q", phase, e.Line, e.Column, named, e, files)
+	}
+	off, inside := offsetOf(src, e.Line, e.Column)
+	if !inside {
+		return fmt.Errorf("%s error points to line %d col %d, outside %s (%d bytes): %v\n files=%q", phase, e.Line, e.Column, named, len(src), e, files)
+	}
+	if e.Token != nil {
+		if e.Token.Filename != named {
+			return fmt.Errorf("%s error names %q but its token comes from %q: %v\n files=%q", phase, named, e.Token.Filename, e, files)
+		}
+		text := e.Token.Val
+		switch {
+		case e.Token.Typ == pongo2.TokenString:
+			text = ""
+			if off >= len(src) || (src[off] != '"' && src[off] != '\'') {
+				return fmt.Errorf("%s error near a string token, but no quote at line %d col %d of %s: %v\n files=%q", phase, e.Line, e.Column, named, e, files)
+			}
+		case e.Token.Typ == pongo2.TokenSymbol && e.Token.TrimWhitespaces:
+			if strings.HasPrefix(text, "{") {
+				text += "-"
+			} else {
+				text = "-" + text
+			}
+		}
+		if !strings.HasPrefix(src[off:], text) {
+			return fmt.Errorf("%s error reports token %q at line %d col %d of %s, but the source has %q there: %v\n files=%q", phase, e.Token.Val, e.Line, e.Column, named, clip(src[off:], 20), e, files)
+		}
+	}
+	r.Class(phase + ":positioned")
+	l, _ := lineCol(src, off)
+	if l > 1 || named != cs.Entry {
+		r.NonTrivial(fmt.Sprintf("%q|%d", files, cs.Variant))
+	}
+	return nil
+}
+
+var _ = register(&propSpec{
+	ID:   "C16.anyerror",
+	Rule: "generated multi-file programs (includes static/lazy, import, ssi, extends) with error-prone constructs and 0-3 token-level mutations (delete, duplicate, swap, replace, insert) applied to a random file: whatever error results at compile or execution time, if it carries a position it must name one of the sources, point inside it, and the reported token's text must be found at that position; compile errors must name a template. Non-trivial: positioned error beyond line 1 or in a non-entry file.",
+	Gen: func(t *rapid.T) any {
+		pr := genProgram(t, progOpts{includes: true, inherit: true, stateful: true, errProne: true, maxDepth: 3, maxNodes: 25})
+		// multi-line sources: sprinkle newlines between top-level pieces of every generated file
+		names := make([]string, 0, len(pr.Files))
+		for n := range pr.Files {
+			names = append(names, n)
+		}
+		sortStringsInPlace(names)
+		cs := &c16Any{Files: pr.Files, Entry: pr.Entry, Variant: drawInt(t, 0, 11, "variant")}
+		cs.MutFile = pick(t, "mutfile", names)
+		cs.Muts = genC01Muts(t, 3)
+		return cs
+	},
+	New:   func() any { return &c16Any{} },
+	Check: checkC16Any,
+})
+
+func TestC16AnyError(t *testing.T) { runProp(t, "C16.anyerror") }
